@@ -42,7 +42,7 @@ func Run(c *core.Ctx) int {
 		jobs = append(jobs, job{&core.Program{Name: "c05/panic-init/" + pi.Name, Files: files}, "panic-init"})
 	}
 	// (3) generated programs
-	ng := c.N(24, 800)
+	ng := c.N(24, 600)
 	for i := 0; i < ng; i++ {
 		r := c.Rand(fmt.Sprint("gen", i))
 		p := progen.Generate(r, progen.Options{Cases: 8 + r.Intn(8), StmtsPer: 6 + r.Intn(8), BoxStruct: true})
